@@ -345,11 +345,14 @@ pub fn sheet_xml(sh: &XSheet, enc: &XEnc, table_rids: &[String]) -> String {
                 }
             }
             match &c.val {
+                // with split_text_nodes a comment interrupts the value text (several XML events for one value)
+                XVal::Num(s) if enc.split_text_nodes && s.len() >= 2 => body.push_str(&format!("{}>{}<!--c-->{}{}", tg.o("v"), &s[..1], &s[1..], tg.c("v"))),
                 XVal::Num(s) => body.push_str(&format!("{}>{}{}", tg.o("v"), s, tg.c("v"))),
                 XVal::SharedStr(ix) => body.push_str(&format!("{}>{}{}", tg.o("v"), ix, tg.c("v"))),
                 XVal::InlineStr(t) => body.push_str(&format!("{}>{}{}", tg.o("is"), runs_xml(&tg, t), tg.c("is"))),
                 XVal::Str(s, e) => body.push_str(&format!("{}>{}{}", tg.o("v"), text_content(s, *e), tg.c("v"))),
                 XVal::Bool(b) => body.push_str(&format!("{}>{}{}", tg.o("v"), if *b { 1 } else { 0 }, tg.c("v"))),
+                XVal::Err(s) if enc.split_text_nodes => body.push_str(&format!("{}>{}<!--c-->{}{}", tg.o("v"), esc_text(&s[..2]), esc_text(&s[2..]), tg.c("v"))),
                 XVal::Err(s) => body.push_str(&format!("{}>{}{}", tg.o("v"), esc_text(s), tg.c("v"))),
                 XVal::IsoDate(s) => body.push_str(&format!("{}>{}{}", tg.o("v"), s, tg.c("v"))),
                 XVal::None => {}
